@@ -117,7 +117,7 @@ PROPS = {
             'ASSUMED std contracts: HashSet::extend(iter) = union with the items of the iterator; HashMap::entry(k).or_default(); Derives::default() = two empty sets; HashSet / HashMap over opaque syn keys as mathematical set / map',
         ],
         'not_covered': [
-            'of the second sentence of C16: TypeSubstitutes::extend (generic iterator loop), which insertions are rejected and with which error kind, and that generic arguments of the source path are ignored (parse_path_substitution / absolute_path: syn::Path surgery, opaque here)',
+            'of the second sentence of C16: which insertions are rejected and with which error kind, and that generic arguments of the source path are ignored (parse_path_substitution / absolute_path: syn::Path surgery, opaque here)',
         ],
     },
 }
